@@ -22,7 +22,21 @@ def isStructTy (t : String) : Bool := t == "dd" || t == "sh" || t == "b16"
 
 def bytesOut (o : Out (List UInt8)) : String := outStr (fun l => hex l.toArray) o
 
-/-- families: derva derva_copy derva_into derva_slice derva_slice_s derva_cstr and deref… twins.
+/-- the callable of `derva_slice_f` / `deref_slice_f`, as `stop i x` = the answer of call `i` (0-based), made
+on element `i` of value `x`: `ge:<x>` is the stateless `|e| *e >= x`; `count:<n>` is a STATEFUL `FnMut`
+that counts its calls and answers `true` on the `n`-th one whatever the element (never for `n = 0`);
+`predGe` / `predCount` are the two as model predicates (witnesses in Thm/C05SliceF.lean).
+The `Bool` says whether the predicate looks at the element value (not offered for the struct types). -/
+def predGe (x : Nat) : Nat → Nat → Bool := fun _ v => decide (x ≤ v)
+def predCount (n : Nat) : Nat → Nat → Bool := fun i _ => i + 1 == n
+
+def parsePred (p : String) : Option (Bool × (Nat → Nat → Bool)) :=
+  match p.splitOn ":" with
+  | ["ge", x] => some (true, predGe (num x))
+  | ["count", n] => some (false, predCount (num n))
+  | _ => none
+
+/-- families: derva derva_copy derva_into derva_slice derva_slice_s derva_slice_f derva_cstr and deref… twins.
 `x` is an rva for `derva*` and a va for `deref*`. -/
 def typedOp (img : Option Img) (fam : String) (a : List String) : Option String :=
   let isVa := fam.startsWith "deref"
@@ -37,6 +51,12 @@ def typedOp (img : Option Img) (fam : String) (a : List String) : Option String 
   | "_into", [k, len, x] => some (withView img k fun v => bytesOut (v.dervaIntoChk (mk x) (num len)))
   | "_slice", [k, t, x, len] => some (withView img k fun v => refOut (v.dervaSliceChk (mk x) (tySize t) (tyAlign t) (num len)))
   | "_slice_s", [k, t, x, s] => some (withView img k fun v => refOut (v.dervaSliceSChk (mk x) (tySize t) (tySize t) (num s)))
+  | "_slice_f", [k, t, x, p] =>
+      match parsePred p with
+      | some (usesValue, stop) =>
+        if tySize t = 0 || (usesValue && isStructTy t) then some "bad-op"
+        else some (withView img k fun v => refOut (v.dervaSliceFIChk (mk x) (tySize t) (tyAlign t) stop))
+      | none => some "bad-op"
   | "_cstr", [k, x] => some (withView img k fun v => refOut (v.dervaCStrChk (mk x)))
   | _, _ => none
 
